@@ -455,3 +455,122 @@ def t_spec(t):
 
 
 KINDS.update({"spec": t_spec})
+
+
+# ---------------------------------------------------------------- document-level runs of the real CLI
+def t_cli(t):
+    """run the real command line tool in a scratch directory; returns exit status, produced files, stdout tail"""
+    import subprocess, tempfile, json as _json
+    d = tempfile.mkdtemp(prefix="gvcli_", dir=os.environ.get("GV_SCRATCH", "/tmp"))
+    try:
+        for name, content in t["files"].items():
+            with open(os.path.join(d, name), "w") as f:
+                f.write(content)
+        env = dict(os.environ)
+        env.update(t.get("env", {}))
+        env["PYTHONWARNINGS"] = "ignore"
+        if t.get("inject"):
+            env["GV_INJECT"] = _json.dumps(t["inject"])
+            cmd = [sys.executable, os.path.join(os.path.dirname(os.path.abspath(__file__)), "cli_inject.py")] + t["args"]
+        else:
+            cmd = [sys.executable, os.path.join(impl.REPO, "gasol_asm.py")] + t["args"]
+        t0 = time.time()
+        try:
+            p = subprocess.run(cmd, cwd=d, env=env, capture_output=True, text=True, timeout=t.get("cli_timeout", 240))
+            rc, out, err = p.returncode, p.stdout, p.stderr
+        except subprocess.TimeoutExpired:
+            rc, out, err = -9, "", "timeout"
+        files = {}
+        for fn in sorted(os.listdir(d)):
+            if fn in t["files"]:
+                continue
+            fp = os.path.join(d, fn)
+            if os.path.isfile(fp) and os.path.getsize(fp) < 8_000_000:
+                files[fn] = open(fp, errors="replace").read()
+        return {"rc": rc, "stdout_tail": out[-3000:], "stderr_tail": err[-1500:], "files": files, "wall": time.time() - t0}
+    finally:
+        shutil.rmtree(d, ignore_errors=True)
+
+
+import sys
+KINDS.update({"cli": t_cli})
+
+
+def t_json_roundtrip(t):
+    """parse_asm(text).to_json() against the text's JSON value (C15), under a PUSH0 setting"""
+    import json as _json, tempfile
+    impl.constants._set_push0(bool(t.get("push0", True)))
+    d = tempfile.mkdtemp(prefix="gvrt_")
+    try:
+        p = os.path.join(d, "in.json_solc")
+        open(p, "w").write(t["text"])
+        try:
+            with impl.quiet():
+                back = impl.gasol_asm.parse_asm(p).to_json()
+        except Exception as ex:
+            return {"exception": "%s: %s" % (type(ex).__name__, ex)}
+        orig = _json.loads(t["text"])
+        if t.get("push0", True):
+            # the documented spelling: with PUSH0 enabled a zero push is written PUSH0
+            def norm(x):
+                if isinstance(x, dict):
+                    if x.get("name") == "PUSH" and x.get("value") == "0":
+                        x = {k: v for k, v in x.items() if k != "value"}
+                        x["name"] = "PUSH0"
+                        return x
+                    return {k: norm(v) for k, v in x.items()}
+                if isinstance(x, list):
+                    return [norm(v) for v in x]
+                return x
+            orig = norm(orig)
+            back = norm(back)
+        if back == orig:
+            return {"same": True}
+        # first difference
+        def diff(a, b, path=""):
+            if type(a) != type(b):
+                return "%s: %r vs %r" % (path, a if not isinstance(a, (dict, list)) else type(a).__name__, b if not isinstance(b, (dict, list)) else type(b).__name__)
+            if isinstance(a, dict):
+                for k in sorted(set(a) | set(b)):
+                    if k not in a or k not in b:
+                        return "%s/%s: present on one side only" % (path, k)
+                    x = diff(a[k], b[k], path + "/" + str(k))
+                    if x:
+                        return x
+                return None
+            if isinstance(a, list):
+                if len(a) != len(b):
+                    return "%s: length %d vs %d" % (path, len(a), len(b))
+                for i, (x, y) in enumerate(zip(a, b)):
+                    z = diff(x, y, "%s[%d]" % (path, i))
+                    if z:
+                        return z
+                return None
+            return None if a == b else "%s: %r vs %r" % (path, a, b)
+        return {"same": False, "diff": diff(orig, back)}
+    finally:
+        shutil.rmtree(d, ignore_errors=True)
+
+
+KINDS.update({"json_roundtrip": t_json_roundtrip})
+
+
+def t_plain_roundtrip(t):
+    """parse plain text, print it both ways, parse again (C15)"""
+    impl.constants._set_push0(bool(t.get("push0", True)))
+    rows = []
+    for text in t["texts"]:
+        try:
+            bs = impl.parse_block(text)
+            items1 = [[(i.disasm, i.value) for i in b.instructions] for b in bs]
+            p1 = "\n".join(b.to_plain() for b in bs)
+            p2 = "\n".join(b.to_plain_with_byte_number() for b in bs)
+            items2 = [[(i.disasm, i.value) for i in b.instructions] for b in impl.parse_block(p1)]
+            items3 = [[(i.disasm, i.value) for i in b.instructions] for b in impl.parse_block(p2)]
+            rows.append({"text": text, "items": items1, "plain": p1, "plain_bytes": p2, "again": items2, "again_bytes": items3})
+        except Exception as ex:
+            rows.append({"text": text, "exception": "%s: %s" % (type(ex).__name__, ex)})
+    return {"rows": rows}
+
+
+KINDS.update({"plain_roundtrip": t_plain_roundtrip})
